@@ -42,6 +42,12 @@ def inventory_table():
 gen = {"findings": findings_table, "seeded": seeded_table, "inventory": inventory_table}
 p = os.path.join(V, "DESIGN.md")
 s = open(p).read()
+# PART II is hand-written in notes/design_part2.md and re-appended here before the tables are filled
+p2 = open(os.path.join(V, "notes", "design_part2.md")).read()
+m = "\n===================================================================================================\n\n# PART II — AS BUILT"
+if m in s:
+    s = s[:s.index(m)]
+s = s.rstrip("\n") + "\n" + p2
 for k, fn in gen.items():
     a, b = "<!-- BEGIN GENERATED:%s -->" % k, "<!-- END GENERATED:%s -->" % k
     if a in s and b in s:
